@@ -46,7 +46,7 @@ var (
 // 根据Cache-Control的信息，获取s-maxage 或者max-age的值
 func getCacheMaxAge(header http.Header) int {
 	// 如果有设置cookie，则为不可缓存
-	if header.Get(elton.HeaderSetCookie) != "" {
+	if len(header.Values(elton.HeaderSetCookie)) != 0 {
 		return 0
 	}
 	// 如果没有设置cache-control，则不可缓存
